@@ -228,6 +228,10 @@ def slices_to_raw_chunks(slice_filename_lists, dest_url, input_orientation,
         # free up memory before reading next block (prevent doubled memory
         # usage)
         del block
+    # Sharded datasets are written on close: do it here so that I/O errors
+    # are reported in the exit status (the exit handler cannot do that)
+    if hasattr(accessor, "close"):
+        accessor.close()
 
 
 def convert_slices_in_directory(slice_dirs, dest_url, input_orientation="RAS",
